@@ -261,6 +261,48 @@ SPECIAL.append(c19_special)
 SPECIAL_BOUNDED.append(c19_bounded)
 
 
+def resource_bounded(pid, name, repo, unsupported):
+    """A resource function (_save_to_resource / _load_from_resource) outside the executed subset: the round-trip
+    sweep of that class, in the default mode and with the thread-safety layer switched off (plain in-place writes)."""
+    if unsupported is None:
+        return None
+    m = re.match(r"^(\w+)\.(_save_to_resource|_load_from_resource)/", unsupported["instance"])
+    if not m:
+        return None
+    cname = m.group(1)
+    info = {"obligation": name, "tool": "replay/roundtrip_replay.py", "bound":
+            "33 JSON values x every mutating entry point (incl. overwriting longer content) x {default, nothreads}; "
+            "read back by a fresh object"}
+    env = dict(os.environ, PYTHONPATH=repo)
+    cases = 0
+    for extra in ([], ["nothreads"]):
+        try:
+            r = subprocess.run([VENV_PY, os.path.join(ROOT, "replay", "roundtrip_replay.py"), "search", cname] + extra,
+                               env=env, capture_output=True, text=True, timeout=900)
+            res = json.loads(r.stdout.strip().splitlines()[-1])
+        except Exception as e:      # noqa: BLE001
+            info["error"] = f"{type(e).__name__}: {e}"
+            return None, info
+        cases += res.get("cases") or 0
+        if res.get("error"):
+            info["error"] = res["error"]
+            return None, info
+        if res.get("found"):
+            os.makedirs(REPLAY_DIR, exist_ok=True)
+            path = os.path.join(REPLAY_DIR, f"{pid}-bounded-{cname}-roundtrip.json")
+            json.dump({"property": pid, "scenario": res["scenario"], "message": res["message"],
+                       "confirmed_on_real_code": True, "found_by": "bounded stand-in", "script": "replay/roundtrip_replay.py",
+                       "script_args": ["run", "{self}"]}, open(path, "w"), indent=1)
+            info["replay"] = path
+            info["cases"] = cases
+            return False, info
+    info["cases"] = cases
+    return True, info
+
+
+SPECIAL_BOUNDED.append(resource_bounded)
+
+
 def update_special(pid, key, items, repo):
     """Failed obligations of the in-memory update: replay by out-of-band rewrites and retained handles."""
     names = [n for n, _ in items]
